@@ -479,6 +479,8 @@ def m_next(interp, args, kwargs):
     from .interp import GenObj, PyRaise
     if isinstance(it, SIter):
         return it.next(interp, args[1:] if len(args) > 1 else None)
+    if isinstance(it, Opaque):
+        return interp.reg.call_opaque(interp, it, '__next__', [], {})
     if isinstance(it, GenObj):
         try:
             return it.send(None)
